@@ -89,7 +89,8 @@ def run(ck: Checker):
     ck.rule('C14.HIST', 'into_bench called inside seeded histories of public mutations folded on instances of the repository\'s Circuit class (all gate types, constants with operands, blocks, use before definition): afterwards only bench-basis types remain, the circuit is well formed, inputs, outputs and truth table are unchanged (shared machinery with C02.HIST)')
     from .. import history_fold
     history_fold.fold_histories(ck, 'C14.HIST', only=('into_bench',))
-    ck.floor('C14.HIST', 1)
+    history_fold.fold_copy_convert(ck, 'C14.HIST')
+    ck.floor('C14.HIST', 2)
     mod, dnode, table = rw.find_convertors(ck)
     need = [t for t in GATE_NAMES if t not in semantics.BENCH_BASIS]
     missing = [t for t in need if t not in table]
